@@ -8,12 +8,14 @@
 mod checks;
 mod dirmodel;
 mod linz;
+mod netcli;
 mod orch;
 mod plan;
 mod resp;
 mod rng;
 mod scan;
 mod seqeng;
+mod serve;
 mod shim;
 mod store;
 
@@ -161,6 +163,13 @@ fn main() {
                 println!("not reproduced in {} attempt(s)", attempts);
             }
             std::process::exit(if fired { 1 } else { 0 });
+        }
+        "serve" => {
+            if args.len() < 7 {
+                usage();
+            }
+            let code = serve::main(&args[2..]);
+            std::process::exit(code);
         }
         _ => usage(),
     }
